@@ -538,15 +538,15 @@ def point_after(tr: Any, k: int) -> tuple[int, int]:
     """(ticks, stream) processed when the process enters the wait call that follows its k-th completion"""
     seen = 0
     if k == 0:
-        return (tr.waits[0].ticks_before, tr.waits[0].stream_before) if tr.waits else (len(tr.ticks), len(tr.final_stream))
+        return (tr.waits[0].ticks_before, tr.waits[0].stream_before) if tr.waits else (len(tr.ticks), len(tr.final_wf_stream))
     for i, w in enumerate(tr.waits):
         if w.returned is not None:
             seen += 1
             if seen == k:
                 if i + 1 < len(tr.waits):
                     return tr.waits[i + 1].ticks_before, tr.waits[i + 1].stream_before
-                return len(tr.ticks), len(tr.final_stream)
-    return len(tr.ticks), len(tr.final_stream)
+                return len(tr.ticks), len(tr.final_wf_stream)
+    return len(tr.ticks), len(tr.final_wf_stream)
 
 
 def timeout_in_prefix(tr: Any, k: int) -> bool:
@@ -608,8 +608,9 @@ def check_recovery(ref: Any, snap: dict, rec: Any, case: dict, out: Outcome, det
         if rec.ticks[:nt_rec] != ref.ticks[:nt_ref]:
             i = next((j for j in range(min(nt_rec, nt_ref)) if rec.ticks[j] != ref.ticks[j]), min(nt_rec, nt_ref))
             probs.append(("ticks", f"first difference at tick {i} of {nt_ref}/{nt_rec}"))
-        if rec.final_stream[:ns_rec] != ref.final_stream[:ns_ref]:
-            probs.append(("published_events", f"replayed part: {ns_ref} events before, {ns_rec} after recovery"))
+        if rec.final_wf_stream[:ns_ref] != ref.final_wf_stream[:ns_ref]:
+            probs.append(("published_events", f"replayed part: the first {ns_ref} events published by the control loop differ "
+                                              f"({len(rec.final_wf_stream)} after recovery)"))
     dirty = bool(snap.get("dirty"))
     if det and not dirty:
         if R.canon_result(rec.outcome) != R.canon_result(ref.outcome):
